@@ -3,8 +3,9 @@ import Tickit.Driver.Common
 /-
   Engine `modes` (C12).  Operations: see harness/modes.c.
 
-  Model observation = what the harness prints: return value, bytes written during the operation,
-  every control read back through `getctl_int`, the cached pen.
+  Model observation = what the harness prints: return value, the bytes that had reached the output function
+  when the call returned, the bytes still held in the terminal's output buffer at that moment, every
+  control read back through `getctl_int`, the cached pen.
 
   Specification (evaluated on the *implementation's* observation): a VT mode-state interpreter is fed
   the implementation's bytes; a ghost record keeps the values the program last set successfully and the
@@ -13,7 +14,13 @@ import Tickit.Driver.Common
   they must equal the VT's initial ones (`teardown_restores`); every read-back must equal the ghost
   (`getctl_last_set`).  The contract (documented API use) is tracked explicitly: between pause and
   resume nothing but resume/teardown/unref, after teardown nothing but unref, mouse modes 0…3, text
-  payloads without control bytes.  Outside the contract only model = implementation is compared.
+  payloads without control bytes; the RGB8 capability does not change while the pen asked for holds an RGB8
+  colour.  Outside the contract only model = implementation is compared.
+
+  Output buffer: after pause, teardown and destruction the terminal is judged on the bytes that had reached
+  the output function when the call returned, and nothing may be left in the buffer.  Shared terminal: when
+  the toplevel instance is destroyed while another holder still references the terminal, the terminal must
+  be restored by that destruction (`Sys.dropOwner`).
 -/
 namespace Tickit.Driver.ModesEngine
 open Tickit Tickit.Driver Tickit.Modes
@@ -30,6 +37,13 @@ structure St where
   lg    : Ghost := {}
   ua    : Option Int := none
   inContract : Bool := true
+  /-- the terminal's output buffer (empty between operations: the harness flushes after each) -/
+  obuf  : OBuf := {}
+  /-- the owner's reference is alive; references taken by `termref` -/
+  owner : Bool := true
+  extra : Nat := 0
+  /-- `xterm.cap_rgb8` as last read back from the implementation -/
+  capRgb : Bool := false
 
 /-! ### printing / parsing -/
 
@@ -39,9 +53,25 @@ def attrName : Attr → String
 
 def attrOfName (s : String) : Option Attr := Attr.all.find? (fun a => attrName a == s)
 
+def showColour (v : Int) : String :=
+  if hasRgb v then s!"{colIndex v}#{hexOfNat2 (colR v).toNat}{hexOfNat2 (colG v).toNat}{hexOfNat2 (colB v).toNat}"
+  else toString v
+
 def showPen (p : PenMap) : String :=
-  let parts := Attr.all.filterMap fun a => (p a).map fun v => s!"{attrName a}={v}"
+  let parts := Attr.all.filterMap fun a => (p a).map fun v =>
+    s!"{attrName a}={if a.kind == .colour then showColour v else toString v}"
   if parts.isEmpty then "-" else ",".intercalate parts
+
+/-- `<index>` or `<index>#rrggbb`. -/
+def parseColour (s : String) : Option Int :=
+  match s.splitOn "#" with
+  | [i] => i.toInt?
+  | [i, h] => do
+    let idx ← i.toInt?
+    match hexBytes? h with
+    | some [r, g, b] => if -1 ≤ idx ∧ idx ≤ 255 then some (rgbEnc idx r.toNat g.toNat b.toNat) else none
+    | _ => none
+  | _ => none
 
 def parsePen (s : String) : Option PenMap :=
   if s = "-" then some PenMap.empty else
@@ -49,7 +79,7 @@ def parsePen (s : String) : Option PenMap :=
     match f.splitOn "=" with
     | [k, v] => do
       let a ← attrOfName k
-      let n ← v.toInt?
+      let n ← if a.kind == .colour then parseColour v else v.toInt?
       let n := if a.kind == .bool then bool01 n else n
       pure (fun x => if x = a then some n else p x)
     | _ => none
@@ -82,8 +112,8 @@ def showRet : Option Bool → String
   | some true => "1"
   | some false => "0"
 
-def modelObs (s : Sys) (ret : Option Bool) (out : Out) : String :=
-  let base := s!"ret={showRet ret} out={natsHex out} ctl={ctlDump s.term.drv} pen={showPen s.term.pen}"
+def modelObs (s : Sys) (ret : Option Bool) (out held : Out) : String :=
+  let base := s!"ret={showRet ret} out={natsHex out} held={natsHex held} ctl={ctlDump s.term.drv} pen={showPen s.term.pen}"
   match s.top with
   | some top => base ++ s!" ua={top.useAlt}"
   | none => base
@@ -114,7 +144,8 @@ def parseOp : List String → Option Op
 
 structure ImplObs where
   ret : String
-  out : List Nat
+  out : List Nat         -- delivered when the call returned
+  held : List Nat        -- still in the output buffer then
   ctl : List String      -- empty when gone
   ua  : Option Int
 
@@ -125,11 +156,12 @@ def parseImpl (line : String) : Option ImplObs := do
   let ts := toks line
   let ret ← field ts "ret="
   let out ← (field ts "out=").bind hexNats?
+  let held ← (field ts "held=").bind hexNats?
   let ctl := match field ts "ctl=" with
     | some c => c.splitOn ","
     | none => []
   let ua := (field ts "ua=").bind String.toInt?
-  pure { ret, out, ctl, ua }
+  pure { ret, out, held, ctl, ua }
 
 /-! ### the executable specification -/
 
@@ -137,8 +169,17 @@ def b2s (b : Bool) : String := if b then "on" else "off"
 
 def clause (bad : Bool) (msg : String) : List String := if bad then [msg] else []
 
+/-- A rendition value of the VT (colours `≥ 1000` are RGB triples). -/
+def showAttr (a : Attr) (v : Int) : String :=
+  if a.kind == .colour && decide (v ≥ 1000) then
+    let n := (v - 1000).toNat
+    s!"rgb#{hexOfNat2 (n / 65536 % 256)}{hexOfNat2 (n / 256 % 256)}{hexOfNat2 (n % 256)}"
+  else toString v
+
+def showPenVal (a : Attr) (v : Int) : String := if a.kind == .colour then showColour v else toString v
+
 /-- Terminal modes against the logical ones while running: every failing clause. -/
-def checkRunning (vt : VT) (lg : Ghost) : List String :=
+def checkRunning (rgb8 : Bool) (vt : VT) (lg : Ghost) : List String :=
   let m := vt.modes
   clause (m.altscreen ≠ decide (lg.alt ≠ 0)) s!"running: terminal altscreen is {b2s m.altscreen}, last set {lg.alt}" ++
   clause (m.cursorVisible ≠ decide (lg.vis ≠ 0)) s!"running: terminal cursor visibility is {b2s m.cursorVisible}, last set {lg.vis}" ++
@@ -146,9 +187,9 @@ def checkRunning (vt : VT) (lg : Ghost) : List String :=
   clause (m.sgrMouse ≠ decide (lg.mouse ≠ 0)) s!"running: terminal SGR mouse encoding is {b2s m.sgrMouse}, last mouse mode set {lg.mouse}" ++
   clause (m.keypadApp ≠ decide (lg.keypad ≠ 0)) s!"running: terminal keypad application mode is {b2s m.keypadApp}, last set {lg.keypad}" ++
   (match Attr.all.find? (fun a => match lg.pen a with
-        | some v => inDomain a v && vt.attrs a ≠ sem a v
+        | some v => inDomain a v && vt.attrs a ≠ sem rgb8 a v
         | none => false) with
-    | some a => [s!"pen: terminal renders {attrName a}={vt.attrs a}, logical pen has {attrName a}={(lg.pen a).getD 0}"]
+    | some a => [s!"pen: terminal renders {attrName a}={showAttr a (vt.attrs a)}, logical pen has {attrName a}={showPenVal a ((lg.pen a).getD 0)} (terminal RGB8 capability {if rgb8 then "on" else "off"})"]
     | none => [])
 
 /-- Terminal modes against the initial ones after pause / teardown / destruction. -/
@@ -160,13 +201,14 @@ def checkRestored (what : String) (vt : VT) (m0 : VModes) : List String :=
   clause (m.sgrMouse ≠ m0.sgrMouse) s!"after {what}: terminal SGR mouse encoding is {b2s m.sgrMouse}, initially {b2s m0.sgrMouse}" ++
   clause (m.keypadApp ≠ m0.keypadApp) s!"after {what}: terminal keypad application mode is {b2s m.keypadApp}, initially {b2s m0.keypadApp}" ++
   (match Attr.all.find? (fun a => vt.attrs a ≠ dflt a) with
-    | some a => [s!"after {what}: terminal still renders {attrName a}={vt.attrs a}"]
+    | some a => [s!"after {what}: terminal still renders {attrName a}={showAttr a (vt.attrs a)}"]
     | none => [])
 
 /-- Read-backs against the values last set. -/
 def checkGetctl (ctl : List String) (lg : Ghost) : List String :=
   match ctl with
-  | [alt, vis, mouse, blink, shape, keypad, _, _, _, _, _] =>
+  | [alt, vis, mouse, blink, shape, keypad, _, _, _, _, rgb8] =>
+    clause (lg.rgb8.isSome ∧ rgb8 ≠ showOpt lg.rgb8) s!"getctl xterm.cap_rgb8 reads {rgb8}, last set {showOpt lg.rgb8}" ++
     clause (alt ≠ toString lg.alt) s!"getctl altscreen reads {alt}, last set {lg.alt}" ++
     clause (vis ≠ toString lg.vis) s!"getctl cursorvis reads {vis}, last set {lg.vis}" ++
     clause (mouse ≠ toString lg.mouse) s!"getctl mouse reads {mouse}, last set {lg.mouse}" ++
@@ -174,6 +216,9 @@ def checkGetctl (ctl : List String) (lg : Ghost) : List String :=
     clause (lg.blink.isSome ∧ blink ≠ showOpt lg.blink) s!"getctl cursorblink reads {blink}, last set {showOpt lg.blink}" ++
     clause (lg.shape.isSome ∧ shape ≠ showOpt lg.shape) s!"getctl cursorshape reads {shape}, last set {showOpt lg.shape}"
   | _ => ["malformed ctl read-back"]
+
+/-- `xterm.cap_rgb8` as the implementation reads it back (`false` when the terminal is gone). -/
+def capOf (ctl : List String) : Bool := ctl.getLast? == some "1"
 
 /-- Phase / contract / ghost transition for one operation, given the implementation's return value
     and the toplevel's `use_altscreen` read-back before the operation. -/
@@ -184,21 +229,38 @@ def ghostStep (st : St) (op : Op) (implRet : String) : St :=
   | some ph => { st with lg := lg, phase := ph, inContract := st.inContract && opOk op }
   | none => { st with lg := lg, inContract := false }
 
+/-- The contract about the RGB8 capability: it does not change while the pen asked for depends on it. -/
+def capStep (st : St) (obs : ImplObs) : St :=
+  if obs.ctl.isEmpty then st else
+  let c := capOf obs.ctl
+  { st with capRgb := c, inContract := st.inContract && !(c != st.capRgb && capSensitive st.lg.pen) }
+
+/-- The verdict after an operation.  `st.vt` has read the bytes that had reached the output function when
+    the call returned (`obs.out`), not yet the ones still held in the output buffer (`obs.held`). -/
 def specAfter (st : St) (what : String) (obs : ImplObs) : String :=
   if !st.inContract then ""
-  else if st.vt.ps ≠ .ground then "output ends inside an escape sequence"
   else
     let g := if obs.ctl.isEmpty then [] else checkGetctl obs.ctl st.lg
-    let v := if st.gone then checkRestored what st.vt st.vt0 else match st.phase with
-      | .running =>
-        if modesShown st.vt.modes st.lg && penShown st.vt.attrs st.lg.pen then [] else
-        let c := checkRunning st.vt st.lg
-        if c.isEmpty then ["running: specification predicate false"] else c
-      | .paused | .stopped =>
-        if restoredOk st.vt st.vt0 then [] else
-        let c := checkRestored what st.vt st.vt0
-        if c.isEmpty then ["restored: specification predicate false"] else c
-    "; ".intercalate (g ++ v)
+    let restored := st.gone || st.phase != .running
+    if restored then
+      -- pause / teardown / destruction: judged on what has reached the terminal when the call returns
+      let h := clause (!obs.held.isEmpty) s!"after {what}: {obs.held.length} bytes written by the call are still in the output buffer when it returns"
+      let v :=
+        if st.vt.ps ≠ .ground then ["output ends inside an escape sequence"]
+        else if restoredOk st.vt st.vt0 then [] else
+          let c := checkRestored what st.vt st.vt0
+          if c.isEmpty then ["restored: specification predicate false"] else c
+      "; ".intercalate (g ++ h ++ v)
+    else
+      -- running: the bytes still buffered count (the program's next flush sends them)
+      let vt := st.vt.feed obs.held
+      let rgb8 := capOf obs.ctl
+      let v :=
+        if vt.ps ≠ .ground then ["output ends inside an escape sequence"]
+        else if modesShown vt.modes st.lg && penShown rgb8 vt.attrs st.lg.pen then [] else
+          let c := checkRunning rgb8 vt st.lg
+          if c.isEmpty then ["running: specification predicate false"] else c
+      "; ".intercalate (g ++ v)
 
 /-! ### the step function -/
 
@@ -209,6 +271,30 @@ def initialModes (opts : List String) : VModes :=
     | ["shape", v] => { m with cursorShape := v.toNat?.getD 0 }
     | _ => m
 
+/-- `buf=N` on the `new` line; a toplevel instance that builds its own terminal gives it a buffer anyway. -/
+def bufferOf (kind : String) (opts : List String) : Nat :=
+  let n := opts.foldl (init := 0) fun n o =>
+    match o.splitOn "=" with
+    | ["buf", v] => v.toNat?.getD 0
+    | _ => n
+  if n = 0 && kind == "tickitb" then Gen.ModeLayout.top_default_bufsize else n
+
+/-- The model's observation of a call that wrote `out` (ending with a flush iff `fl`) and left system `s`;
+    the buffer afterwards is empty again (the harness flushes). -/
+def callObs (st : St) (s : Sys) (ret : Option Bool) (out : Out) (fl : Bool) : String :=
+  let r := st.obuf.call out fl
+  modelObs s ret r.2 r.1.pend
+
+/-- Judge the implementation's observation of one call; `st` is the state after the model's and the ghost's step. -/
+def judge (st : St) (what : String) (impl : String) (m : String) : St × String × String :=
+  match parseImpl impl with
+  | none => (st, m, "unparsable implementation observation")
+  | some obs =>
+    let st1 := capStep st obs
+    let st2 := { st1 with vt := st1.vt.feed obs.out, ua := obs.ua }
+    let verdict := specAfter st2 what obs
+    ({ st2 with vt := st2.vt.feed obs.held }, m, verdict)
+
 def step (_st : St) (ts : List String) (impl : String) : St × String × String :=
   let st := _st
   let cfg := Cfg.tree
@@ -218,39 +304,49 @@ def step (_st : St) (ts : List String) (impl : String) : St × String × String 
     let kind := rest.head?.getD "term"
     let b := Sys.build (kind == "tickit" || kind == "tickitb")
     let m0 := initialModes rest
-    let st1 : St := { sys := some b.1, vt := { modes := m0 }, vt0 := m0, inContract := m0.standard }
-    match parseImpl impl with
-    | none => (st1, modelObs b.1 none b.2, "unparsable implementation observation")
-    | some obs =>
-      let st2 := { st1 with vt := st1.vt.feed obs.out, ua := obs.ua }
-      (st2, modelObs b.1 none b.2, specAfter st2 "build" obs)
+    -- the driver is started (and its queries flushed) before the output buffer is installed
+    let st1 : St := { sys := some b.1, vt := { modes := m0 }, vt0 := m0, inContract := m0.standard,
+                      obuf := { cap := bufferOf kind rest } }
+    judge st1 "build" impl (modelObs b.1 none b.2 [])
   | _ =>
     match st.sys with
     | none => (st, "dead", "")
     | some sys =>
       if ts = ["unref"] then
-        let out := sys.destroy
-        let m := s!"ret=- out={natsHex out} gone closed=1"
-        let st1 := { st with sys := none, gone := true }
-        match parseImpl impl with
-        | none => (st1, m, "unparsable implementation observation")
-        | some obs =>
-          let st2 := { st1 with vt := st1.vt.feed obs.out }
-          (st2, m, specAfter st2 "destruction" obs)
+        if !st.owner then (st, "bad-op", "") else
+        let r := sys.dropOwner st.extra
+        let fl := !(sys.top.isNone && st.extra != 0)
+        match r.1 with
+        | none =>
+          let d := st.obuf.call r.2 fl
+          let m := s!"ret=- out={natsHex d.2} held={natsHex d.1.pend} gone closed=1"
+          judge { st with sys := none, gone := true, owner := false } "destruction" impl m
+        | some left =>
+          let m := callObs st left none r.2 fl
+          -- the toplevel instance is destroyed, the terminal lives on (torn down); a bare terminal just loses a reference
+          let st1 := { st with sys := some left, owner := false }
+          let st2 := if sys.top.isSome then { st1 with phase := .stopped } else st1
+          judge st2 "destruction" impl m
+      else if ts = ["termref"] then
+        judge { st with extra := st.extra + 1 } "termref" impl (callObs st sys none [] false)
+      else if ts = ["termunref"] then
+        if st.extra = 0 then (st, "bad-op", "") else
+        if st.extra = 1 && !st.owner then
+          let d := st.obuf.call sys.destroy true
+          let m := s!"ret=- out={natsHex d.2} held={natsHex d.1.pend} gone closed=1"
+          judge { st with sys := none, gone := true, extra := 0 } "destruction" impl m
+        else judge { st with extra := st.extra - 1 } "termunref" impl (callObs st sys none [] false)
       else
         match parseOp ts with
         | none => (st, "bad-op", "")
         | some op =>
           let r := sys.step cfg op
           if r.bad then (st, "bad-op", "") else
-          let m := modelObs r.sys r.ret r.out
+          let m := callObs st r.sys r.ret r.out r.flush
           let st1 := { st with sys := some r.sys }
           match parseImpl impl with
           | none => (st1, m, "unparsable implementation observation")
-          | some obs =>
-            let st2 := ghostStep st1 op obs.ret
-            let st3 := { st2 with vt := st2.vt.feed obs.out, ua := obs.ua }
-            (st3, m, specAfter st3 (ts.head?.getD "?") obs)
+          | some obs => judge (ghostStep st1 op obs.ret) (ts.head?.getD "?") impl m
 
 def engine : Engine := { σ := St, init := {}, step := step }
 
